@@ -85,6 +85,8 @@ pub fn spec_for(prop: &str) -> Option<Spec> {
     let failing = prof(|p| { p.force_on |= F_FAIL; p.p_fail = 170; });
     let failing_eph = prof(|p| { p.force_on |= F_FAIL; p.p_fail = 170; p.kinds = [1, 2, 3]; p.p_dep = 120; });
     let aborting = prof(|p| { p.force_on |= F_ABORT; p.p_abort = 150; });
+    // aborts while several jobs (often on-demand Ephemerals) are running
+    let aborting_eph = prof(|p| { p.force_on |= F_ABORT | F_CONC; p.p_abort = 150; p.kinds = [1, 2, 3]; p.p_dep = 120; p.p_motif = 110; });
     let noisy = prof(|p| { p.force_on |= F_STAMPS; });
     let noisy_eph = prof(|p| { p.force_on |= F_STAMPS; p.kinds = [1, 2, 4]; p.p_dep = 130; });
     let multi = prof(|p| { p.force_on |= F_MULTI | F_TOGGLE_JOB | F_TOGGLE_DEP; });
@@ -126,7 +128,7 @@ pub fn spec_for(prop: &str) -> Option<Spec> {
             "non-trivial = evaluation with >=1 failed job and >=1 job without failed ancestor; failure-free twin run for each; distinct by canonical form"),
         "C08" => s("C08", "exploration", vec![failing.clone(), failing_eph.clone(), aborting.clone(), flaky_failing.clone()], 480_000, 6_000_000,
             "non-trivial = evaluation in which a failed job had an own and a per-dependency record in the input history; follow-up evaluation for each; distinct by canonical form"),
-        "C09" => s("C09", "exploration", vec![failing.clone(), aborting.clone(), failing_eph.clone()], 400_000, 5_000_000,
+        "C09" => s("C09", "exploration", vec![failing.clone(), aborting.clone(), failing_eph.clone(), aborting_eph.clone()], 400_000, 5_000_000,
             "non-trivial = interrupted evaluation that left >=1 never-started up-to-date job and >=1 job that succeeded before the interruption (uninterrupted twin + resume run for each); distinct by canonical form"),
         "C10" => s("C10", "fault_enumeration", vec![base.clone(), conc.clone(), eph.clone(), flaky_failing.clone()], 48_000, 600_000,
             "for every evaluation of a generated chain EVERY prefix length of its schedule x both abort styles is replayed (enumeration inside generation); non-trivial = abort point with >=1 job ready or >=2 running; distinct by canonical form x abort point x style"),
